@@ -54,11 +54,8 @@ def proj(v):
     return [(-1 if np.isnan(x) else int(round(x))) for x in np.asarray(v, dtype=float).ravel()]
 
 
-def call(fn, *a):
-    try:
-        return fn(*a)
-    except Exception as e:
-        return 'raise:' + type(e).__name__
+def call(fn, *a, **k):
+    return core.guarded(fn, *a, **k)
 
 
 def record(cs, emd, cvl, sel):
